@@ -1,6 +1,6 @@
 (* C06 -- the exact evaluator [inter_clip] of Model/Clip.v satisfies the hypotheses under which
    the IoU laws of Proofs/Geom2Proofs.v section 6 are stated ("area" = shoelace sum throughout,
-   no measure theory):
+   no measure theory).  This file: everything except symmetry (Proofs/ClipAreaSym.v).
      1. invariance under a common rigid motion (cross products are invariant, crossing points
         covariant up to ==, the shoelace sum of a closed chain invariant);
      2.-3. Green's formula for one Sutherland-Hodgman pass about an origin on the clipping line
@@ -11,11 +11,13 @@
         boundary leaves the inner side of ANY line (the footprint leaves it at most once), so in
         the coordinates along the edges of g the boundary of the clipped polygon descends at most
         the width of g in total, and the trapezoid form of the shoelace sum is bounded by the
-        area of g. *)
+        area of g;
+     8. the IoU laws instantiated for the evaluator. *)
 From Coq Require Import List ZArith QArith Bool Lia Lqa Psatz.
 From PE Require Import Base.QUtil Model.Geom2 Model.Clip Proofs.Geom2Proofs Proofs.ClipProofs.
 Import ListNotations.
 Open Scope Q_scope.
+
 
 (* ======================================================================================== *)
 (* 1. rigid invariance of the evaluator                                                      *)
@@ -1051,15 +1053,15 @@ Section Travel.
 
   Lemma travel : forall n L lo hi, (length L <= n)%nat -> lo <= hi ->
     (forall uv, In uv L -> xi (snd uv) < xi (fst uv) -> lo <= xi (snd uv) /\ xi (fst uv) <= hi) ->
-    (forall q : pt, (cnt (xi q) L <= 1)%nat) ->
+    (forall uv, In uv L -> (cnt (xi (fst uv)) L <= 1)%nat) ->
     psum desc L <= hi - lo.
   Proof.
     induction n as [|n IH]; intros L lo hi Hn Hlh Hin Hc.
     - destruct L; [cbn; lra|cbn in Hn; lia].
     - destruct L as [|[u v] T]; [cbn; lra|]. cbn [length] in Hn. cbn [psum].
-      assert (HcT : forall q, (cnt (xi q) T <= 1)%nat).
-      { intros q. specialize (Hc q). unfold cnt in *. cbn [filter] in Hc.
-        destruct (trans (xi q) (u, v)); cbn [length] in Hc; lia. }
+      assert (HcT : forall uv, In uv T -> (cnt (xi (fst uv)) T <= 1)%nat).
+      { intros uv Huv. specialize (Hc uv (or_intror Huv)). unfold cnt in *. cbn [filter] in Hc.
+        destruct (trans (xi (fst uv)) (u, v)); cbn [length] in Hc; lia. }
       assert (HinT : forall uv, In uv T -> xi (snd uv) < xi (fst uv) -> lo <= xi (snd uv) /\ xi (fst uv) <= hi)
         by (intros uv H; apply Hin; now right).
       unfold desc at 1. cbn [fst snd]. unfold dplus.
@@ -1074,7 +1076,8 @@ Section Travel.
           - exact La.
           - intros uv H1 H2. apply filter_In in H1. destruct H1 as [H1 H3]. unfold kL in H3. apply Qleb_true in H3.
             destruct (HinT uv H1 H2). split; assumption.
-          - intros q. unfold cnt. etransitivity; [apply filter_filter_length|apply HcT]. }
+          - intros uv Huv. apply filter_In in Huv. destruct Huv as [Huv _].
+            unfold cnt. etransitivity; [apply filter_filter_length|now apply HcT]. }
         assert (BR : psum desc (filter (fun x => negb (kL x)) T) <= hi - xi u).
         { apply (IH _ (xi u) hi).
           - pose proof (filter_length_le' (fun x => negb (kL x)) T). lia.
@@ -1084,17 +1087,20 @@ Section Travel.
             destruct (HinT (u', v') H1 H2) as [_ H5]. cbn [fst snd] in H5. split; [|exact H5].
             destruct (Qlt_le_dec (xi v') (xi u)) as [Bad|Ok]; [exfalso|exact Ok].
             (* a level that both steps go down through *)
-            assert (W : exists q, xi v < xi q /\ xi q <= xi u /\ xi v' < xi q /\ xi q <= xi u').
-            { destruct (Qlt_le_dec (xi u') (xi u)); [exists u'|exists u]; repeat split; lra. }
-            destruct W as (q & W1 & W2 & W3 & W4).
-            specialize (Hc q). unfold cnt in Hc. cbn [filter] in Hc.
+            assert (W : exists q w, In (q, w) ((u, v) :: T) /\
+                          xi v < xi q /\ xi q <= xi u /\ xi v' < xi q /\ xi q <= xi u').
+            { destruct (Qlt_le_dec (xi u') (xi u)); [exists u', v'|exists u, v];
+                (split; [first [now right|now left]|repeat split; lra]). }
+            destruct W as (q & w & Wq & W1 & W2 & W3 & W4).
+            specialize (Hc (q, w) Wq). cbn [fst] in Hc. unfold cnt in Hc. cbn [filter] in Hc.
             assert (T1 : trans (xi q) (u, v) = true).
             { unfold trans. cbn [fst snd]. apply andb_true_iff. split; [now apply Qleb_true|now apply Qltb_true]. }
             assert (T2 : trans (xi q) (u', v') = true).
             { unfold trans. cbn [fst snd]. apply andb_true_iff. split; [now apply Qleb_true|now apply Qltb_true]. }
             rewrite T1 in Hc. cbn [length] in Hc.
             pose proof (filter_In_pos (trans (xi q)) T (u', v') H1 T2). lia.
-          - intros q. unfold cnt. etransitivity; [apply filter_filter_length|apply HcT]. }
+          - intros uv Huv. apply filter_In in Huv. destruct Huv as [Huv _].
+            unfold cnt. etransitivity; [apply filter_filter_length|now apply HcT]. }
         lra.
       + assert (psum desc T <= hi - lo) by (apply (IH T lo hi); auto; lia). lra.
   Qed.
@@ -1214,7 +1220,7 @@ Section InPara.
     { apply (travel pxi (length (cpairs Q))); [lia|lra| |].
       - intros [u v] Huv _. destruct (cpairs_in Q u v Huv) as [Hu Hv]. cbn [fst snd].
         destruct (Bx u Hu), (Bx v Hv). split; assumption.
-      - intros q. destruct Q as [|f t]; [cbn; lia|]. unfold cpairs. rewrite cnt_exs.
+      - intros [q w] _. cbn [fst]. destruct Q as [|f t]; [cbn; lia|]. unfold cpairs. rewrite cnt_exs.
         rewrite (exs_ext _ (inside q (par_to q))); [apply (U q (par_to q))|].
         intros p. symmetry. apply inside_par. }
     assert (L : A * shoelace2 Q <= 2 * A * A) by nra.
@@ -1347,24 +1353,5 @@ Qed.
 Lemma iou2_clip_identical_one e g : box_valid e -> box_valid g -> same_bev e g -> iou2_clip e g == 1.
 Proof. unfold iou2_clip. apply iou2_identical_one. exact inter_clip_same. Qed.
 
-(* symmetry in the two cases the property names, and the two-sided bounds in every case *)
 Lemma boxes_disjoint_sym e g : boxes_disjoint e g -> boxes_disjoint g e.
 Proof. intros [H|H]; [now right|now left]. Qed.
-
-Lemma inter_clip_sym_partial e g : box_valid e -> box_valid g ->
-  (same_bev e g \/ boxes_disjoint e g -> inter_clip e g == inter_clip g e /\ iou2_clip e g == iou2_clip g e) /\
-  (0 <= inter_clip e g /\ inter_clip e g <= area_rect e /\ inter_clip e g <= area_rect g) /\
-  (0 <= inter_clip g e /\ inter_clip g e <= area_rect e /\ inter_clip g e <= area_rect g).
-Proof.
-  intros Ve Vg. split; [|split].
-  - intros H.
-    assert (E : inter_clip e g == inter_clip g e).
-    { destruct H as [S|D].
-      + rewrite (inter_clip_same e g Ve Vg S), (inter_clip_same g e Vg Ve (same_bev_sym _ _ S)).
-        now apply same_bev_area.
-      + rewrite (inter_clip_disjoint e g Ve Vg D), (inter_clip_disjoint g e Vg Ve (boxes_disjoint_sym _ _ D)).
-        reflexivity. }
-    split; [exact E|]. unfold iou2_clip, iou2_box. now apply iou_swap.
-  - split; [now apply inter_clip_nonneg|]. split; [now apply inter_clip_le_l|now apply inter_clip_le_r].
-  - split; [now apply inter_clip_nonneg|]. split; [now apply inter_clip_le_r|now apply inter_clip_le_l].
-Qed.
